@@ -41,6 +41,7 @@ class SimulationAlgorithm3DBase
 
     int Poisson(double lambda)
         {
+        if(!(lambda > 0)) return 0; // std::poisson_distribution requires a strictly positive mean
         return std::poisson_distribution<int>(lambda)(rng);
         }
 
